@@ -61,7 +61,7 @@ def run_cases(cases, res):
         kw = {}
         if c['signed'] is not None: kw['signed'] = c['signed']
         g = c['given']
-        if g == 'n_word': kw['n_word'] = max(1, c.get('n_word', sign + ni0 + nf0 + c.get('slack', 0)))
+        if g == 'n_word': kw['n_word'] = max(1, sign + ni0 if c.get('slack', 0) < -1 else 1, c.get('n_word', sign + ni0 + nf0 + c.get('slack', 0)))      # (a word many bits short of the exact fraction still leaves room for the integer part)
         elif g == 'n_frac': kw['n_frac'] = c.get('n_frac', nf0 + c.get('slack', 0))
         elif g == 'n_int+n_frac': kw['n_int'] = ni0 + c.get('slack', 0); kw['n_frac'] = nf0
         elif g == 'n_int+n_word': kw['n_int'] = ni0; kw['n_word'] = sign + ni0 + nf0 + c.get('slack', 0)
@@ -150,8 +150,14 @@ def shard(shard, nshards, rng, tier, extra):
     cases = []
     for _ in range((4000 if tier == 'quick' else 100000) // nshards):
         c = gen(rng)
-        if c['given'] in ('n_word', 'n_frac', 'n_int+n_frac', 'n_int+n_word'): c['slack'] = rng.choice([0, 0, 1, 3, -1 if c['given'] == 'n_word' else 2])
+        if c['given'] in ('n_word', 'n_frac', 'n_int+n_frac', 'n_int+n_word'): c['slack'] = rng.choice([0, 0, 1, 3, -1 if c['given'] == 'n_word' else 2] + ([-rng.randint(2, 16), -rng.randint(2, 6)] if c['given'] == 'n_word' else []))
         cases.append(c)
+        if rng.random() < 0.06:
+            # only n_word given and many bits short of the exact fraction, the extreme just beyond a power of two (the integer part is decided by the exact value, not by a truncated one)
+            f = rng.randint(4, 20); j = rng.randint(0, 6); sg_ = rng.choice([-1, -1, 1])
+            v = sg_ * (Fraction(2 ** j) + Fraction(rng.choice([1, 1, -1]), 2 ** f))
+            vals = [v] + ([Fraction(rng.randint(-2 ** j, 2 ** j), 4)] if rng.random() < 0.4 else [])
+            cases.append({'vals': [str(t) for t in vals], 'signed': rng.choice([True, None]), 'given': 'n_word', 'shape': 'scalar' if len(vals) == 1 else 'array', 'carrier': 'float', 'slack': -rng.randint(2, f - 1)})
     run_cases(cases, res)
     capped(rng, (300 if tier == 'quick' else 6000) // nshards, res)
     return res
